@@ -384,6 +384,19 @@ def check_output(doc, caps, spacing_ok):
     return True, None
 
 
+
+
+_LONG_LIVED = {}
+
+
+def shared(cls, **kw):
+    """one object per class and option set for the whole run: what a conversion returns depends on its input and the
+    options only, also when the object has converted other documents before"""
+    key = (cls, tuple(sorted(kw.items())))
+    if key not in _LONG_LIVED:
+        _LONG_LIVED[key] = cls(**kw)
+    return _LONG_LIVED[key]
+
 def bounded(ctx, b):
     rng = random.Random(ctx.seed)
     n = 120 if not ctx.thorough else 2000
@@ -407,12 +420,12 @@ def bounded(ctx, b):
                                                for s, lines, e in caps])})
 
         def one(cs=cs, caps=caps):
-            doc = SCCWriter().write(cs)
+            doc = shared(SCCWriter).write(cs)
             ok, detail = check_output(doc, [(s, lines) for s, lines, _ in caps], True)
             if not ok:
                 detail["doc"] = doc[:400]
                 return False, detail
-            back = SCCReader().read(doc).get_captions("en-US")
+            back = shared(SCCReader).read(doc).get_captions("en-US")
             got = [" ".join(c_.get_text().split()) for c_ in back]
             exp = [" ".join(" ".join(expected_rows(lines)).split()) for _, lines, _ in caps]
             return got == exp, {"reread": got, "expected": exp}
